@@ -38,6 +38,7 @@ fn dispatch<P: Property>(prop: P, mode: &Mode) -> i32 {
         Mode::Worker => engine::worker_main(&prop),
         Mode::Replay(path) => engine::replay_one(&prop, Path::new(path)),
         Mode::Run(tier, seed) => engine::run(prop, *tier, *seed).exit,
+        Mode::EntropyStats => engine::entropy_stats(&prop),
     }
 }
 
@@ -45,6 +46,7 @@ enum Mode {
     Worker,
     Replay(String),
     Run(Tier, u64),
+    EntropyStats,
 }
 
 fn main() {
@@ -63,11 +65,13 @@ fn main() {
         _ => Tier::Quick,
     };
     let mut worker = false;
+    let mut stats = false;
     let mut replay = None;
     let mut it = args.iter();
     while let Some(a) = it.next() {
         match a.as_str() {
             "--worker" => worker = true,
+            "--entropy-stats" => stats = true,
             "--replay" => replay = it.next().cloned(),
             "quick" => tier = Tier::Quick,
             "thorough" => tier = Tier::Thorough,
@@ -83,7 +87,9 @@ fn main() {
         .and_then(|s| s.trim().parse::<i64>().ok())
         .map(|v| v as u64)
         .unwrap_or(0);
-    let mode = if worker {
+    let mode = if stats {
+        Mode::EntropyStats
+    } else if worker {
         Mode::Worker
     } else if let Some(p) = replay {
         Mode::Replay(p)
